@@ -488,3 +488,6 @@ func (r *Raft) VerifCommitNotified() bool {
 		return false
 	}
 }
+
+// VerifOverrideNotifyBool exposes overrideNotifyBool (util.go) for the correspondence check.
+func VerifOverrideNotifyBool(ch chan bool, v bool) { overrideNotifyBool(ch, v) }
